@@ -263,7 +263,12 @@ class Models:
         if isinstance(x, (SInt, SBool, SReal)) or x is None or isinstance(x, (int, float)):
             py_raise(TypeError, 'object is not iterable')
         if isinstance(x, SStr):
-            raise Unsupported('list of symbolic string')
+            # the list of the characters of the string: same length, k-th item is the k-th character
+            from .values import STR_EK
+            chars = ip.ctx.fresh('chars', STR_EK.seqsort)
+            n = z3.Length(x.e)
+            ip.ctx.assume([z3.Length(chars) == n, dsl.All(0, n, lambda k: chars[k] == z3.SubString(x.e, k, 1))])
+            return Cell(SSeq(chars, list, STR_EK), list)
         return list(ip.iterate(x))
 
     def _byteseq(self, ip, x, pycls):
